@@ -31,6 +31,18 @@ def remove_unused_self_cls(source: str) -> str:
             arguments = funcdef.args.posonlyargs + funcdef.args.args
             if not arguments:
                 continue
+            if any(
+                core.match_template(
+                    decorator,
+                    (
+                        ast.Name(id=("property", "cached_property")),
+                        ast.Attribute(attr=("cached_property", "setter", "getter", "deleter")),
+                    ),
+                )
+                for decorator in funcdef.decorator_list
+            ):
+                # A property is called with the instance, whether it uses it or not
+                continue
             first_arg_name = arguments[0].arg
 
             first_arg_accesses = set()
